@@ -147,6 +147,10 @@ class SemantivaOrchestrator(ABC):
 
         # Compute semantic IDs BEFORE on_pipeline_start (without instantiation)
         if trace is not None:
+            # The enrichment below must not leak into the caller's canonical spec
+            # (Pipeline keeps it and passes it again on the next run).
+            canonical = dict(canonical)
+            canonical["nodes"] = [dict(n) for n in canonical.get("nodes", [])]
             pipeline_id = compute_pipeline_id(canonical)
             node_uuids = [n["node_uuid"] for n in canonical.get("nodes", [])]
             upstream_map = compute_upstream_map(canonical)
